@@ -236,6 +236,20 @@ Theorem C08_get_defaults_late_copy_refuted :
 Proof. exists pc_parser, pc_heap. vm_compute. congruence. Qed.
 Print Assumptions C08_get_defaults_late_copy_refuted.
 
+(* ---- list-valued actions (nargs): _check_type writes the checked elements back into the list it was handed, on every
+   tree; validate / validate(branch=KEY) are safe only because they work on a clone (inside C08_fixed_frame, which now
+   covers the type constructor TNargs and the operation OValidateBranch).  Without the clone the caller's list is rewritten: *)
+Definition nb_parser : parser := [{| d_key := k_; d_ty := TNargs TInt; d_dflt := VNone |}].
+Definition nb_heap : heap := [CNs [(k_, VRef 1)]; CList [VStr s1; VInt 2]].
+Example C08_validate_branch_leaves_argument :
+  firstn 2 (s_h (out_st (run_op_fixed nb_parser (OValidateBranch (VRef 0)) (mkst nb_heap g0)))) = nb_heap
+  /\ is_ok (run_op_fixed nb_parser (OValidateBranch (VRef 0)) (mkst nb_heap g0)) = true.
+Proof. vm_compute. split; reflexivity. Qed.
+Theorem C08_validate_branch_noclone_refuted :
+  exists p h0 a, firstn (length h0) (s_h (out_st (validate_branch_noclone true p a (mkst h0 g0)))) <> h0.
+Proof. exists nb_parser, nb_heap, (VRef 0). vm_compute. congruence. Qed.
+Print Assumptions C08_validate_branch_noclone_refuted.
+
 (* ---- try/finally regions in general: any nesting of regions around any body that leaves the globals
    alone (returning or raising) leaves them alone; in particular the skeletons of parse_args with a
    config file, default_config_files in get_defaults / format_help / parse_args, list files and
